@@ -7,6 +7,44 @@ from props.c12 import w_origin_bb
 import libmodel as L
 
 
+def notified_by_caller(prog, R, bid):
+    """The handler itself never notifies, but the code that calls it in the actor (dispatcher / loop) notifies after the call,
+    deciding on a value the handler returns (`let wake = self.post_messages(..); self.wake(wake)`).
+    Returns None (no such caller), ("undecided", loc) when the only ways around the notify are branches on the handler's own
+    result, or ("skipped", loc, path) when the notify can be skipped for another reason (an early return on a failed reply ..)."""
+    root = prog.facts.body(bid).root or bid
+    for cid, cb in prog.facts.bodies.items():
+        if cb.crate != "lib":
+            continue
+        ci = prog.info(cid)
+        for cbb, t in ci.calls(lambda c: prog.qual(cb, c.target) == root):
+            later = {e.bb for e in prog.effects(cid) if e.touches(R.signal) and e.kind in NOTIFY_KINDS and e.bb != cbb and ci.cfg.can_reach(cbb, e.bb)}
+            if not later:
+                continue
+            empty = R.backlog_empty_blocks(ci)
+            # branches on the handler's result itself (projections / moves of the returned value): their other arms are the
+            # handler's decision `nobody to wake`, which is not re-derived here
+            own = set()
+            for blk in ci.body.blocks:
+                if blk.cleanup or blk.term.k != "switch" or blk.term.discr is None or blk.term.discr.place is None:
+                    continue
+                o = ci.trace(blk.term.discr)
+                if o.kind == "discr":
+                    # discriminant of a place: trace that place
+                    for st in blk.stmts:
+                        if st.k == "assign" and st.rv.k == "discr" and st.lhs.is_local() and st.lhs.local == blk.term.discr.place.local:
+                            o = ci.trace(st.rv.place)
+                if o.kind == "call" and o.data == cbb:
+                    for s2 in ci.cfg.succ[blk.idx]:
+                        if not (ci.cfg.edge_dominated(blk.idx, s2) & later):
+                            own |= ci.cfg.edge_dominated(blk.idx, s2)
+            esc = ci.cfg.escapes(cbb, later | empty | own)
+            if esc is None:
+                return ("undecided", ci.loc(sorted(later)[0]))
+            return ("skipped", ci.loc(esc[-1]), esc)
+    return None
+
+
 @rule("C06", "R06.1", "every append to the backlog is followed by a notify on the message signal (at most guarded by `backlog non-empty`)", floor=3)
 @rule("C05", "R06.1", "every append to the backlog is followed by a notify on the message signal (at most guarded by `backlog non-empty`)", floor=3)
 @rule("C04", "R06.1", "every append to the backlog is followed by a notify on the message signal (at most guarded by `backlog non-empty`)", floor=3)
@@ -22,6 +60,15 @@ def r06_1(prog, out):
         for e in effs:
             key = "append=>notify:%s" % prog.short(bid)
             if not nb:
+                where = notified_by_caller(prog, R, bid)
+                if where is not None and where[0] == "undecided":
+                    out.undecided(key, bi.loc(e.bb), "%s does not notify itself; its caller does, after the call (%s), from what the handler returns: whether every "
+                                  "append leads to that notify is not decided across the call" % (prog.short(bid), where[1]))
+                    continue
+                if where is not None:
+                    out.violation(key, where[1], "the wake-up for what %s appended is issued by its caller, and the caller can skip it for a reason that has nothing to do "
+                                  "with the backlog (a path from the call to the end of the turn avoids the notify)" % prog.short(bid))
+                    continue
                 out.violation(key, bi.loc(e.bb), "%s appends to the backlog and never signals waiting consumers: a blocked Pull / open StreamingPull "
                               "does not see the message until something else wakes it" % prog.short(bid))
                 continue
@@ -44,6 +91,15 @@ def r06_2(prog, out):
         nb = set(R.notify_blocks(bid))
         empty = R.backlog_empty_blocks(bi)
         key = "leftover=>notify:%s" % prog.short(bid)
+        where = notified_by_caller(prog, R, bid) if not nb else None
+        if where is not None and where[0] == "undecided":
+            out.undecided(key, prog.loc(bid), "the pull handler does not notify itself; its caller does after the call (%s), from what the handler returns: not decided "
+                          "across the call" % where[1])
+            continue
+        if where is not None:
+            out.violation(key, where[1], "the hand-on of the wake-up after a pull is issued by the caller of the pull handler, and the caller can skip it for a reason that has "
+                          "nothing to do with the backlog (e.g. an early return when the reply cannot be delivered): messages left behind wake nobody")
+            continue
         if not nb:
             out.violation(key, prog.loc(bid), "a pull that stops at its batch limit never re-notifies: with several waiting consumers the remaining messages "
                           "stay undelivered while a consumer is parked")
